@@ -64,7 +64,9 @@ class Scenario:
     def filler(self, uri):
         r = self.rng.random()
         if r < 0.3:
-            self.add(uri, self.rng.choice(["plain text", "", "  indented text ${'ok'}", "text with \\", "two\nlines"]))
+            # (form feed, vertical tab, NEL, U+2028 and the like are characters of a line, not line ends: only LF counts)
+            self.add(uri, self.rng.choice(["plain text", "", "  indented text ${'ok'}", "text with \\", "two\nlines", "page\x0cbreak", "vertical\x0btab and \u2028 in js",
+                                           "nel\x85 fs\x1c gs\x1d"]))
         elif r < 0.45:
             self.add(uri, "## a comment")
         elif r < 0.55:
@@ -512,7 +514,7 @@ def _warnings_part(ctx, workroot, tier):
     os.makedirs(d)
     n = 0
     for name, src, line, needle in cases:
-        for path in ["string", "file", "lookup", "moddir", "moddir-stale-magic"]:
+        for path in ["string", "file", "lookup", "moddir", "moddir-stale-magic", "moddir-reload"]:
             for action in ["always", "default", "once"]:
                 if path == "moddir-stale-magic" and name == "module":
                     continue            # the stale module's own top-level code runs (and warns) when it is loaded: two executions, two warnings
@@ -552,6 +554,22 @@ def _warnings_part(ctx, workroot, tier):
                                 with open(mf, "w") as f_:
                                     f_.write(re.sub(r"_magic_number = \d+", "_magic_number = 1", msrc))
                                 py_compile.compile(mf)
+                            del shown[:]
+                            warnings.showwarning = lambda message, category, filename, lineno, file=None, line=None: shown.append((str(message), filename, lineno))
+                            t = TemplateLookup(directories=[d], module_directory=md).get_template(os.path.basename(fn))
+                            want_fn = fn
+                        elif path == "moddir-reload":
+                            # the module file is there and up to date (written by an earlier construction, no cached bytecode): loading it
+                            # compiles and runs the module again, and what it warns about is still the template's
+                            md = os.path.join(d, "mr_%s_%s" % (name, action))
+                            with warnings.catch_warnings():
+                                warnings.simplefilter("ignore")
+                                TemplateLookup(directories=[d], module_directory=md).get_template(os.path.basename(fn))
+                            import shutil as _sh
+                            for root_, dirs_, _f in os.walk(md):
+                                for dn in dirs_:
+                                    if dn == "__pycache__":
+                                        _sh.rmtree(os.path.join(root_, dn), ignore_errors=True)
                             del shown[:]
                             warnings.showwarning = lambda message, category, filename, lineno, file=None, line=None: shown.append((str(message), filename, lineno))
                             t = TemplateLookup(directories=[d], module_directory=md).get_template(os.path.basename(fn))
